@@ -45,6 +45,10 @@ static long crash_k = -1;
 static int crash_mode = 0; /* 1 before, 2 after, 3 torn */
 static pthread_mutex_t mu = PTHREAD_MUTEX_INITIALIZER;
 static long seq = 0;
+static char stall_match[256];   /* FSFAULT_WRITE_STALL=<substring of class>:<k>:<ms>: the k-th write whose class */
+static long stall_k = -1;        /* contains the substring takes <ms> longer (a stalled disk), once */
+static long stall_ms = 0;
+static long stall_seen = 0;
 static long unlink_delay_us = 0; /* FSFAULT_UNLINK_DELAY_US: a slow disk for unlink/rmdir under the root */
 
 static char *fd_rel[MAXFD]; /* relpath of tracked writable fds */
@@ -113,6 +117,23 @@ __attribute__((constructor)) static void init(void) {
     strncpy(root, r, sizeof(root) - 2);
     root_len = strlen(root);
     while (root_len > 1 && root[root_len - 1] == '/') root[--root_len] = 0;
+    const char *ws = getenv("FSFAULT_WRITE_STALL");
+    if (ws && *ws) {
+        char tmp[512];
+        strncpy(tmp, ws, sizeof(tmp) - 1);
+        tmp[sizeof(tmp) - 1] = 0;
+        char *m = strrchr(tmp, ':');
+        if (m) {
+            *m++ = 0;
+            char *k = strrchr(tmp, ':');
+            if (k) {
+                *k++ = 0;
+                strncpy(stall_match, tmp, sizeof(stall_match) - 1);
+                stall_k = atol(k);
+                stall_ms = atol(m);
+            }
+        }
+    }
     const char *ud = getenv("FSFAULT_UNLINK_DELAY_US");
     if (ud && *ud) unlink_delay_us = atol(ud);
     const char *lg = getenv("FSFAULT_LOG");
@@ -217,7 +238,10 @@ static int effect(const char *op, const char *rel, size_t bytes) {
     }
     int act = 0;
     if (crash_mode && k == crash_k && !strcmp(cls, crash_class)) act = crash_mode;
+    long stall = 0;
+    if (stall_k > 0 && !strcmp(op, "write") && strstr(cls, stall_match) && ++stall_seen == stall_k) stall = stall_ms;
     pthread_mutex_unlock(&mu);
+    if (stall > 0) usleep((useconds_t)(stall * 1000));
     if (act == 1) die();
     return act;
 }
